@@ -251,7 +251,7 @@ static int c02_main(server &S,char const *pname,long from,long count,bool quick,
 	std::vector<c02case> cases;
 	if(proto==HTTP) http_cases(cases,quick,seed); else if(proto==SCGI) scgi_cases(cases,quick,seed); else fcgi_cases(cases,quick,seed);
 	if(count<0) { printf("%zu\n",cases.size()); return 0; }
-	booster::verif::open("/dev/null");     // hook events reach the listener only while tracing is on
+	booster::verif::open(getenv("VERIF_HOOK_OUT") ? getenv("VERIF_HOOK_OUT") : "/dev/null");     // hook events reach the listener only while tracing is on
 	S.start();
 	// does this build carry the completion hooks?  one valid request tells
 	{
